@@ -123,9 +123,13 @@ func cmdMerge(args []string) {
 	var viols []ViolationRef
 	var premise []string
 	truncated := false
+	watchdogs := 0
 	maxWall := 0.0
 	race := map[string]int64{}
 	for _, s := range parts {
+		if s.Watchdog {
+			watchdogs++
+		}
 		if s.Lane == "race" {
 			race["workloads"] += s.Evals
 			race["reports"] += int64(len(s.Violations))
@@ -262,6 +266,7 @@ func cmdMerge(args []string) {
 		"skipped_runs":                skipped,
 		"premise_failed":              len(premise),
 		"budget_truncated":            truncated,
+		"watchdog_trips":              watchdogs,
 		"workers":                     len(parts),
 		"instrumentation":             instrInfo,
 		"tree_sha256":                 treeSHA,
@@ -339,6 +344,10 @@ func cmdMerge(args []string) {
 		os.Exit(1)
 	}
 	if len(premise) > 0 {
+		os.Exit(2)
+	}
+	if watchdogs > 0 {
+		fmt.Fprintf(os.Stderr, "merge: %d worker(s) were stopped by the watchdog (a call did not return outside the simulator's control): exit 2, not a verdict\n", watchdogs)
 		os.Exit(2)
 	}
 	if evals == 0 {
